@@ -85,7 +85,15 @@ class Model(HoloPyObject):
                         par, parameters_to_tie[0])
                 raise ValueError(msg)
             indices.append(self._parameter_names.index(par))
-        indices.sort()
+        # a name listed twice is still one parameter
+        indices = sorted(set(indices))
+        if new_name is not None:
+            others = [name for i, name in enumerate(self._parameter_names)
+                      if i not in indices]
+            if new_name in others:
+                msg = ("Cannot name the tied parameter {}. That name is "
+                       "already used by another parameter").format(new_name)
+                raise ValueError(msg)
         for index in indices[:0:-1]:
             del(self._parameters[index])
             del(self._parameter_names[index])
